@@ -52,7 +52,8 @@ func pairRule(c *Ctx, op string, ok bool, err error, kind string, k any) {
 	if c.R.Prop != "C13" {
 		return
 	}
-	c.R.Nontrivial(fmt.Sprintf("pair|%s|%v|%v", op, ok, errClass(err)))
+	c.R.Nontrivial("pair|" + op + "|" + mustJSON(k))
+	c.R.Count(fmt.Sprintf("verdict_pairs:%s:(%v,%s)", op, ok, map[bool]string{true: "nil", false: "error"}[err == nil]), 1)
 	if ok && err != nil {
 		c.R.Violate("C13|"+op+"|true-with-error|", op+" returned (true, error)", kind, k, "(true, nil) or (false, error)", fmt.Sprintf("(true, %v)", err))
 	}
